@@ -1,4 +1,6 @@
 """C07 -- data-class instances stay valid under every sequence of mutations"""
+from typing import Final
+
 from utype import DataClass, Field, Options, Schema, exc
 from vt.ob import ob
 
@@ -21,6 +23,7 @@ class K1(Schema):
     o: int = Field(ge=0, required=False)
     d: int = Field(ge=0, default=5)
     im: int = Field(ge=0, immutable=True, default=1)
+    fin: Final[int] = Field(ge=0)
 
 
 class K2(Schema):
@@ -53,7 +56,7 @@ class K4(DataClass):
 SPEC = {
     # name: (cls, fields {attname: (output key, required, immutable, no_output)}, key vocabulary)
     'K1': (K1, {'r': ('r', True, False, False), 'o': ('o', False, False, False), 'd': ('d', False, False, False),
-                'im': ('im', False, True, False)}, ['r', 'o', 'd', 'im', 'zz']),
+                'im': ('im', False, True, False), 'fin': ('fin', True, True, False)}, ['r', 'o', 'd', 'im', 'fin', 'zz']),
     'K2': (K2, {'a': ('A1', True, False, False), 'h': ('h', False, False, True), 'b': ('b', False, False, False)},
            ['a', 'A1', 'h', 'b', 's', 'zz']),
     'K3': (K3, {'inner': ('inner', True, False, False), 'n': ('n', False, False, False), 'opt': ('opt', False, False, False)},
@@ -61,7 +64,7 @@ SPEC = {
 }
 
 OPS = ['setitem', 'setattr', 'delitem', 'delattr', 'pop', 'popitem', 'update-dict', 'update-kw', 'setdefault', 'clear',
-       'ior', 'copy-mutate']
+       'ior', 'copy-mutate', 'update-2keys', 'ior-2keys']
 
 
 def ok_int(v):
@@ -91,6 +94,7 @@ def build(V, name, tag=''):
         else:
             absent.append('d')
         kw['im'] = V.int(tag + 's_im', 0, 3)
+        kw['fin'] = V.int(tag + 's_fin', 0, 3)
     elif name == 'K2':
         kw['a'] = V.int(tag + 's_a', 0, None)
         kw['h'] = V.int(tag + 's_h', 0, 3)
@@ -130,6 +134,8 @@ def set_attr(obj, key, v):
         obj.d = v
     elif key == 'im':
         obj.im = v
+    elif key == 'fin':
+        obj.fin = v
     elif key == 'a':
         obj.a = v
     elif key == 'b':
@@ -160,6 +166,17 @@ def apply(V, name, inst, op, tag=''):
             getattr(inst, op)()
             return target, False, None, None
         key = V.pick(tag + 'key', keys)
+        if op in ('update-2keys', 'ior-2keys'):
+            # a multi-key update may be applied partially when a later key is rejected, but whatever it leaves behind
+            # must be a valid instance (checked by the caller with partial=True)
+            v = new_value(V, name, key, tag)
+            key2 = V.pick(tag + 'key2', keys)
+            v2 = new_value(V, name, key2, tag + 'second_')
+            if op == 'update-2keys':
+                inst.update({key: v, key2: v2})
+            else:
+                inst |= {key: v, key2: v2}
+            return target, False, (key, key2), (v, v2)
         if op in ('delitem', 'delattr', 'pop'):
             if op == 'delitem':
                 del inst[key]
@@ -225,10 +242,11 @@ def valid(V, name, inst, sig_prefix, det, immutables, dep_changed=False):
     if name == 'K2' and 's' in data:
         V.check(ok_int(data['s']), sig_prefix + ':nonconforming:s', det)
     V.check(not extra, sig_prefix + ':unknown-key-stored', det)
-    if name == 'K2' and dep_changed:
+    if name == 'K2':
         # an assignment to a dependency re-computes the dependent property (deleting a dependency leaves the dependant as
-        # it was: pinned by the repository's own test "slug is not affected")
-        if 'A1' in data and 'b' in data:
+        # it was: pinned by the repository's own test "slug is not affected"); so whenever both dependencies and the
+        # property are present they agree, and right after an assignment the property is present
+        if 'A1' in data and 'b' in data and ('s' in data or dep_changed):
             V.check(data.get('s') == data['A1'] + data['b'], sig_prefix + ':dependant-stale', det)
 
 
@@ -252,7 +270,7 @@ def _step(V, name, op):
     det = lambda: '%s state=%r attrs=%r ; %s(key=%r, value=%r) %s ; after: %r attrs=%r%s' % (
         name, before[0], before[1], op, key, v, 'raised %s' % type(raised).__name__ if raised else 'ok', after[0], after[1],
         '' if target is inst else ' ; copy: %r attrs=%r' % snapshot(target))
-    if raised:
+    if raised and op not in ('update-2keys', 'ior-2keys'):
         V.check(after == before, 'step:raised-but-changed', det)
         if target is not inst:
             V.check(snapshot(target)[0] == before[0] or True, 'step:copy', det)
@@ -268,8 +286,8 @@ def _step(V, name, op):
 
 for _n in SPEC:
     for _op in OPS:
-        ob('step/%s/%s' % (_n, _op), marks=['applied'] if _op in ('copy-mutate', 'setdefault', 'ior', 'update-dict', 'update-kw', 'setitem', 'setattr') else [],
-           budget=(60, 200),
+        ob('step/%s/%s' % (_n, _op), marks=['applied'] if _op in ('copy-mutate', 'setdefault', 'ior', 'update-dict', 'update-kw', 'setitem', 'setattr', 'update-2keys', 'ior-2keys') else [],
+           budget=(150 if '2keys' in _op else 60, 400),
            bounds='%s: any valid state (presence of optional fields and conforming values solver-chosen, unbounded ints) then '
                   'one %s with key from %r and value = unbounded solver int | "5" | "x" (nested: dict forms)' % (
                       _n, _op, SPEC[_n][2]),
@@ -287,7 +305,7 @@ def _history(V, name, k):
         trace.append((op, key, v, type(raised).__name__ if raised else None))
         after = snapshot(inst)
         det = lambda: '%s history %r -> %r attrs=%r' % (name, trace, after[0], after[1])
-        if raised:
+        if raised and op not in ('update-2keys', 'ior-2keys'):
             V.check(after == before, 'history:raised-but-changed', det)
         valid(V, name, inst, 'history', det, imm, dep_changed=_dep_changed(name, raised, op, key, before))
     V.cover('done')
